@@ -392,6 +392,21 @@ def run(prog, rep):
             rep.violation('R4', loc(mmod, f), 'MaintenanceInfo.copy', norm(f),
                           'the (unfinalized) copy shares the node table of the original: add/rem on the copy alter a '
                           'finalized record')
+    # the entries are mutable objects: a record keeps and hands out copies of them, never the object a caller holds
+    ENTRY_COPIERS = ('replace', 'deepcopy', 'MaintenanceEntry', '_copy_entry', 'copy_entry')
+    for mname_ in ('add', 'get', 'copy', 'list_details', 'iter'):
+        f_ = mi.methods.get(mname_)
+        if f_ is None:
+            continue
+        copies_entries = any(isinstance(c, ast.Call) and call_name(c) in ENTRY_COPIERS for c in ast.walk(f_)) or \
+            any(isinstance(c, ast.Call) and call_name(c) == 'copy' and isinstance(c.func, ast.Attribute) and
+                not ast.unparse(c.func.value).endswith('_nodes') and not (isinstance(c.func.value, ast.Name) and c.func.value.id == 'self') for c in ast.walk(f_))
+        rep.instance('R4', f'MaintenanceInfo.{mname_}: entries are copied on the way in / out: {copies_entries}')
+        if not copies_entries:
+            rep.violation('R4', loc(mmod, f_), f'MaintenanceInfo.{mname_}', 'entry objects shared with the caller',
+                          f'MaintenanceInfo.{mname_} passes the MaintenanceEntry objects themselves (mutable dataclass instances): whoever holds '
+                          f'one - the caller of add(), the receiver of get() / list_details() / iter(), an unfinalized copy() - can change its '
+                          f'state or dates and thereby alter a finalized record, which add / rem / pop refuse to do')
     # finalize sets the flag; to_json requires finalized; from_json finalizes
     fz = mi.methods.get('finalize')
     rep.instance('R4', 'finalize sets the flag; from_json finalizes')
